@@ -15,6 +15,7 @@
 //   --rt-floats <lo> <hi>          every float bit pattern in [lo, hi): round trip through 9 digits
 //   --rt-doubles <seed> <count>    <count> doubles from a splitmix64 stream (uniform bit patterns): 17 digits
 //   --fmt-doubles <seed> <count>   <count> doubles x prec 0..40 x 3 formats against snprintf
+//   --fmt-floats <lo> <hi> <step>  float bit patterns lo, lo+step, .. < hi x prec 0..40 x 3 formats against snprintf
 #include "common.hpp"
 #include "StringStream.hpp"
 #include "Digit.hpp"
@@ -232,6 +233,25 @@ static int bulk(int argc, char **argv) {
                 }
         }
         printf("done tested=%" PRIu64 " failed=%" PRIu64 " failed_default_p0=%" PRIu64 "\n", tested, failed, failed_p0);
+        return 0;
+    }
+    if (mode == "--fmt-floats" && argc == 5) {
+        // every float bit pattern lo, lo+step, ... < hi, x prec 0..40 x 3 formats against snprintf
+        uint64_t lo = strtoull(argv[2], nullptr, 0), hi = strtoull(argv[3], nullptr, 0), step = strtoull(argv[4], nullptr, 0);
+        uint64_t tested = 0, failed = 0;
+        for (uint64_t b = lo; b < hi; b += step) {
+            if ((b & 0x7F800000U) == 0x7F800000U) continue;
+            for (unsigned p = 0; p <= 40; p++)
+                for (unsigned f = 0; f < 3; f++) {
+                    tested++;
+                    std::string q = qtext(false, b, p, f), c = cref(double(flt(uint32_t(b))), p, f);
+                    if (q != c) {
+                        if (failed < 40) printf("fail f %08x %u %u q=%s c=%s\n", unsigned(b), p, f, q.c_str(), c.c_str());
+                        failed++;
+                    }
+                }
+        }
+        printf("done tested=%" PRIu64 " failed=%" PRIu64 "\n", tested, failed);
         return 0;
     }
     fprintf(stderr, "bad bulk mode\n");
